@@ -8,7 +8,7 @@ MODES = ('async', 'thread', 'inline', 'process')
 ALL_MODES = ('async', 'async', 'thread', 'thread', 'inline', 'inline', 'process', 'process', 'thread_tag', 'custom_tag',
              'async_tagged')
 CORO_MODES = ('async', 'async_tagged')
-LITERALS = [None, 0, '', False, 7, 'lit']
+LITERALS = [None, 0, '', False, 7, 'lit', ['__selfunequal__']]      # the last one: a value with x != x (like NaN)
 
 DEFAULT = dict(
     n_max=9, max_depth=3,
